@@ -570,3 +570,10 @@ package server
 //@   claims at-return at-call
 //@   at-return requires called(ToOriginApi)
 //@   at-call ToOriginApi(s.Conditions requires arg0 == s.Conditions.BgpConditions.OriginEq
+
+// from C19 "every record the daemon emits parses back": a Peer Down Notification whose reason says that a
+// NOTIFICATION PDU follows (reasons 1 and 3, RFC 7854 4.9) is built with one
+//@ props C19
+//@ func bmpPeerDown
+//@   claims at-call
+//@   at-call bmp.NewBMPPeerDownNotification( requires (int(arg1) == bmp.BMP_PEER_DOWN_REASON_LOCAL_BGP_NOTIFICATION || int(arg1) == bmp.BMP_PEER_DOWN_REASON_REMOTE_BGP_NOTIFICATION) ==> arg2 != nil
